@@ -108,11 +108,11 @@ def units(tier, seed):
         for pos in P.C18_NAME_POSITIONS + ["lambda-arity", "string-raw", "twochar"]:
             for first in range(16):
                 u.append({"kind": "positions", "positions": [pos], "wrapper": "top", "len": 4, "first": first})
-        # flag variants of transpile's own parameters
-        for pos in ("string-raw", "string-escaped", "twochar"):
-            u.append({"kind": "positions", "positions": [pos], "wrapper": "top", "maxlen": 3, "dict_compress": False})
-        for pos in ("var-set", "var-get"):
-            u.append({"kind": "positions", "positions": [pos], "wrapper": "top", "maxlen": 3, "digraphs": True})
+    # variants of transpile's own parameters (no dictionary compression, one-character variable names)
+    for pos in ("string-raw", "string-escaped", "twochar"):
+        u.append({"kind": "positions", "positions": [pos], "wrapper": "top", "maxlen": 3 if thorough else 2, "dict_compress": False})
+    for pos in ("var-set", "var-get"):
+        u.append({"kind": "positions", "positions": [pos], "wrapper": "top", "maxlen": 3 if thorough else 2, "digraphs": True})
     nrand = 12 if tier == "quick" else 300
     per = 1000 if tier == "quick" else 2000
     for i in range(nrand):
@@ -783,7 +783,15 @@ def _run_random(unit, m, res):
         else:
             # code page text with the adversarial alphabet and name-introducing syntax mixed in
             s = "".join(r.choice(hostile) if r.random() < 0.6 else r.choice(cp) for _ in range(n))
-        v = run_program(s, m, res, rep, "random-" + kind)
+        # every fourth random text goes through one of the other settings of transpile's own parameters
+        dc, dg = ((True, False), (True, False), (True, True), (False, False), (True, False), (True, False),
+                  (False, True), (True, True))[i % 8]
+        if (dc, dg) == (True, False):
+            v = run_program(s, m, res, rep, "random-" + kind)
+        else:
+            uu = dict(unit, dict_compress=dc, digraphs=dg)
+            v = run_program(s, m, res, _single(uu), "random-" + kind + "-params", dict_compress=dc, digraphs=dg)
+            res["counters"]["random_cases_other_parameters"] = res["counters"].get("random_cases_other_parameters", 0) + 1
         if v != "skip" and len(s) > 1 and s not in seen:
             seen.add(s)
             res["keys"].append(short_hash(s))
